@@ -14,6 +14,7 @@ generated file                         source
   OhkamiModel/GenMime.lean             ohkami_lib/src/mime.rs
   OhkamiModel/GenConsts.lean           request/mod.rs BUF_SIZE / PAYLOAD_LIMIT, request/path.rs Params::LIMIT
   OhkamiModel/GenFieldName.lean        request/mod.rs: the byte set of a header name (the `matches!` pattern of the header loop)
+  OhkamiModel/GenSession.lean          session/mod.rs: the arms of the match on Request::read (a refused request is answered and ends the session)
   OhkamiModel/GenShutdown.lean         ohkami/mod.rs: order of the steps of UntilInterrupt::poll (flag first? re-check after publishing the waker?)
   OhkamiModel/GenSchemaTypes.lean      ohkami_openapi/src/schema.rs `Type::*::NAME`
   OhkamiModel/GenNum.lean              ohkami_lib/src/num.rs: the `unroll!` digit list of itoa, the nibble arms of hexized
@@ -263,6 +264,50 @@ def gen_shutdown():
     return '\n'.join(out) + '\n'
 
 
+def gen_session():
+    """what `Session::manage` does around `Request::read` (ohkami/src/session/mod.rs): the arms of the match on its outcome (after a refused request, does the
+    loop end?), what the Keep-Alive timeout is put around, and whether the per-connection `ip` is written back before each request"""
+    src = read('ohkami/src/session/mod.rs')
+    fm = re.search(r"pub\(crate\) async fn manage\(mut self\) \{(.*)", src, re.S)
+    if not fm:
+        raise TranslateError('Session::manage not found')
+    body_fn = fm.group(1)
+    lp = body_fn.find('loop {')
+    if lp < 0:
+        raise TranslateError('Session::manage: the request loop not found')
+    READ = r"req\.as_mut\(\)\.read\(&mut self\.connection\)"
+    m_old = re.search(r"match " + READ + r"\.await \{(.*?)\n                \}\n", body_fn, re.S)
+    m_new = re.search(r"match timeout_in\(\s*Duration::from_secs\(crate::CONFIG\.keepalive_timeout\(\)\),\s*" + READ + r"\s*\)\.await \{(.*?)\n                \}\n", body_fn, re.S)
+    if m_new:
+        body, wrap = m_new.group(1), (lambda x: r"Some\(" + x + r"\)")
+        # the only timeout of the request loop is the one around `read` (the WebSocket part has its own, after the loop)
+        ws = body_fn.find('manage_with_timeout')
+        upto = body_fn[:ws] if ws >= 0 else body_fn
+        wait_only = upto.count('timeout_in(') == 1 and re.search(r"None => break\b", body) is not None
+    elif m_old:
+        body, wrap, wait_only = m_old.group(1), (lambda x: x), False
+    else:
+        raise TranslateError('Session::manage: the match on Request::read not found')
+    err = re.search(wrap(r"Err\((\w+)\)") + r" => (\{.*?\n                    \}|[^\n]*),?\s*$", body.rstrip(), re.S)
+    if not err:
+        raise TranslateError('Session::manage: the arm for a refused request not found')
+    arm = err.group(2)
+    sends = re.search(r"\b%s\.send\(&mut self\.connection\)\.await" % err.group(1), arm) is not None
+    ends = re.search(r"\bbreak\b", arm) is not None and not re.search(r"\b(if|match|continue)\b", re.sub(r"/\*.*?\*/", "", arm, flags=re.S))
+    none_ends = re.search(wrap(r"Ok\(None\)") + r" => break\b", body) is not None
+    head = body_fn[lp:body_fn.find('match', lp)]
+    ip_back = re.search(r"req\.clear\(\);.*?\breq\.ip = self\.ip;", head, re.S) is not None
+    b = lambda x: 'true' if x else 'false'
+    out = ['/-! GENERATED from ohkami/src/session/mod.rs (`Session::manage`). -/', 'namespace Ohkami.Gen',
+           '/-- a refused request is answered (`res.send`) -/', f'def refusalIsAnswered : Bool := {b(sends)}',
+           '/-- and then the loop is left unconditionally: nothing after a refused request is read as a request -/', f'def refusalEndsSession : Bool := {b(ends)}',
+           '/-- end of stream / unknown method (`Ok(None)`) leaves the loop -/', f'def noRequestEndsSession : Bool := {b(none_ends)}',
+           '/-- the Keep-Alive timeout is put around the wait for a request (`read`) and around nothing else of the loop: not around the handler, not around `send` -/',
+           f'def keepAliveBoundsTheWaitOnly : Bool := {b(wait_only)}',
+           '/-- the connection\'s address is written back into the reused request object before each request -/', f'def ipRestored : Bool := {b(ip_back)}', 'end Ohkami.Gen']
+    return '\n'.join(out) + '\n'
+
+
 def gen_schema_types():
     src = read('ohkami_openapi/src/schema.rs')
     rows = re.findall(r'impl Sealed for (\w+)\s*\{\s*const NAME: &\'static str = "([^"\\]*)";\s*\}', src)
@@ -331,6 +376,7 @@ def run(verbose=False):
     emit('GenConsts', gen_consts)
     emit('GenFieldName', gen_field_name)
     emit('GenShutdown', gen_shutdown)
+    emit('GenSession', gen_session)
     emit('GenSchemaTypes', gen_schema_types)
     emit('GenNum', gen_num)
     if rq and rs and st:
